@@ -150,7 +150,7 @@ fn inject(m: &mut RecipeM, sample: u8, variant: u8, pos: u16) {
             qty: Some(QtyM { lock: false, value: ValM::Num(NumM::Int(30)), unit: Some("min".into()), blank_sep: false }),
             braces: true,
         }),
-        0 => TokM::Comp(comp(["olive oil|oil", "wine|w", "a|b c"][variant as usize % 3], None)),
+        0 => TokM::Comp(comp(["olive oil|oil", "wine|w", "a|b c", "salt|pepper|cumin", "a||b", "pot|pan|wok|"][variant as usize % 6], None)),
         1 => {
             let v = ["2-3", "1.5-2", "1/2-3/4", "2 - 3", "1/0-2", "1 - 1 1/0", "1/99999999999-2"][variant as usize % 7];
             let unit = (variant & 8 != 0 && variant & 1 == 0).then(|| "kg".to_string());
@@ -304,6 +304,10 @@ fn literals() -> Vec<(&'static str, Extensions, bool)> {
         ("= = =", none, true),
         ("> >> k: v", none, true),
         ("to \u{2212}5 degrees", none, false),
+        ("the @cookies{} @ the market", none, false),
+        ("in # pieces and wait ~ a while", none, false),
+        ("@ # ~ ( ) | % & + - ? = >", none, false),
+        ("@salt+@pepper", Extensions::COMPONENT_MODIFIERS, false),
         ("1/2 cup of 2-3 things", Extensions::INLINE_QUANTITIES, false),
     ]
 }
